@@ -31,7 +31,7 @@ PROP = dict(
                    "with more than 15 significant digits are left unmodelled (explicit outcome; such cases are run and judged by the oracles only, and counted).",
         subs=[dict(sub="placeholder", n_quick=6000, n_thorough=250000)],
         thorough_seeds=1,
-        rule="n tags, each run under 3 configurations (designed for the tag / mutated: keys removed, values turned into empty map, empty list, null / a third one: "
+        rule="(tenth round) W cases whose value part is ONE placeholder `${K}` (K without comma, quote or blank) are also started with the shorthand `prop:\"K<args>\"`: it must end like `value:\"${K}<args>\"` (oracle placeholder-prop-shorthand; corpus keys that begin with a nested placeholder); n tags, each run under 3 configurations (designed for the tag / mutated: keys removed, values turned into empty map, empty list, null / a third one: "
              "values containing placeholders - chains, self and mutual reference, growth - or empty or unrelated). Tags: 75% from the grammar (literals over "
              "letters digits space $ : , ' \" . - _ #, 0-4 placeholders, nesting depth 0-3 in keys and defaults, present / absent / upper-case / list-index / "
              "dotted keys, defaults plain, quoted, bool-like, number-like, bracketed, empty), 25% malformed (unbalanced braces, `${` without `}`). A tenth also "
